@@ -55,13 +55,16 @@ def run(report, tier):
     g = histrun.history_graph(report)
     rng = common.rng('C07')
     hs = [h for h in g.triples() if sum(1 for o in h if o['op'] == 'Solve') >= 2]
-    sample = rng.sample(hs, min(400 if tier == 'quick' else 5000, len(hs)))
+    from .. import histgraph
+    sample, report.extra['strata (fill, edit, observation) covered'] = histgraph.stratified(hs, 500 if tier == 'quick' else 5000, rng)
     batch = []
     for part in histrun.parallel(c13.replay_chunk, sample):
         batch += part.pop('batch')
         part['violations'], part['counts'] = {}, {}      # fresh-problem comparison belongs to C13; here only the recorded observations count
         report.merge(part)
     validate_traces(report, batch, 'C07 repeated solves', keep=('objOK', 'keysOK'))
+    from .. import suitetrace
+    suitetrace.validate(report, keep=('objOK', 'keysOK'))
     apirun.run_config(report, 'MC_C11M', observer=handle_observer, report_kinds=(), overrides={'MaxCalls': 1})
     return report.finish(
         rule='every complete solve behaviour of MC_Sched (minimise and maximise; quadratic, linear-with-constant and non-polynomial '
